@@ -12,4 +12,10 @@ theorem mkDateChecked_valid (y m d : Nat) (v : Valid y m d) : mkDateChecked y m 
   simp only [Int.toNat_natCast]
   rw [if_pos (by omega)]
 
+/-- every instant of a representable day is inside the datetime range -/
+theorem mkDate_day_in_range (y m d : Nat) (v : Valid y m d) : 0 ≤ mkDate y m d ∧ mkDate y m d + DAYUS ≤ MAXUS := by
+  have := ord_range y m d v
+  unfold mkDate ofOrd MAXUS DAYUS
+  omega
+
 end Pyg.DateParse
